@@ -79,11 +79,37 @@ Fixpoint skip_nl (ts : list tok) : list tok := match ts with NL :: r => skip_nl 
 Fixpoint skip_ded (ts : list tok) : list tok := match ts with DED :: r => skip_ded r | _ => ts end.
 Definition skip_one_ded (ts : list tok) : list tok := match ts with DED :: r => r | _ => ts end.
 
+(** after `(`: `while self.cur_is(Newline) { self.skip() }`, then `line_break` = an Indent follows (skipped) *)
+Definition open_paren (r : list tok) : bool * list tok :=
+  match skip_nl r with
+  | IND :: r' => (true, r')
+  | r1 => (false, r1)
+  end.
+(** before `)`: `if line_break { while self.cur_is(Newline) { self.skip() }; if self.cur_is(Dedent) { self.skip() } }` *)
+Definition close_paren (lb : bool) (ts : list tok) : list tok := if lb then skip_one_ded (skip_nl ts) else ts.
+
+(** Token::is *)
+Definition is (k t : tok) : bool :=
+  match k, t with
+  | LP, LP | LPg, LPg | RP, RP | LS, LS | LSg, LSg | RS, RS | LB, LB | RB, RB | PRE, PRE | SYM, SYM | NAT, NAT
+  | NL, NL | IND, IND | DED, DED | ARROW, ARROW | COMMA, COMMA | EOF, EOF => true
+  | _, _ => false
+  end.
+(** Token::is(LParen) / is(LSqBr), glued or not *)
+Definition is_lp (t : tok) : bool := is LP t || is LPg t.
+Definition is_ls (t : tok) : bool := is LS t || is LSg t.
 (** TokenCategory::REnclosure *)
-Definition renc (t : tok) : bool := match t with RP | RS | RB | DED => true | _ => false end.
+Definition renc (t : tok) : bool := is RP t || is RS t || is RB t || is DED t.
 (** the tokens on which opt_reduce_args parses arguments *)
 Definition arg_start (t : tok) : bool :=
-  match t with NAT | SYM | PRE | LP | LPg | LS | LSg | LB => true | _ => false end.
+  is NAT t || is SYM t || is PRE t || is_lp t || is_ls t || is LB t.
+(** Parser::cur_is and friends: tests on the next token, false at the end of the stream *)
+Definition cur (p : tok -> bool) (ts : list tok) : bool := match ts with t :: _ => p t | [] => false end.
+Definition cur_is (k : tok) (ts : list tok) : bool := cur (is k) ts.
+Definition cur_lp := cur is_lp.
+Definition cur_ls := cur is_ls.
+Definition cur_renc := cur renc.
+Definition cur_arg_start := cur arg_start.
 
 (** the parser methods (and their loops; a loop runs in the frame of its method) *)
 Inductive call : Type :=
@@ -117,6 +143,9 @@ Definition conv (lhs : shape) (l d : nat) (s : st) : out * st :=
   | SCall | STuple | SList => (Unm, s0)
   end.
 
+(** a loop body either ends the loop with the method's result or goes around again *)
+Inductive iter : Type := Stop (r : out * st) | Again (s : st).
+
 Section Body.
   (** [rec c l d s]: run method [c] as a frame at nesting [l] (for a loop: the frame of its method) with self.depth = [d] *)
   Variable rec : call -> nat -> nat -> st -> out * st.
@@ -124,8 +153,8 @@ Section Body.
   (** an `->` was just popped ([s]: after it); [chk_first]: try_reduce_chunk tests for EOF before converting the
       left-hand side, try_reduce_expr_above after *)
   Definition lambda_arm (chk_first : bool) (lhs : shape) (l d : nat) (s : st) (k : st -> out * st) : out * st :=
-    let at_eof := match toks s with EOF :: _ => true | _ => false end in
-    let ml := match toks s with NL :: _ => true | _ => false end in
+    let at_eof := cur_is EOF (toks s) in
+    let ml := cur_is NL (toks s) in
     if chk_first && at_eof then (Err, err1 s)
     else match conv lhs (S l) d s with
          | (Ok _, s1) =>
@@ -137,92 +166,100 @@ Section Body.
          | r => r
          end.
 
+  (** `let x = self.f(..).map_err(..)?; <k>` *)
+  Definition andthen (r : out * st) (k : shape -> st -> out * st) : out * st :=
+    match r with
+    | (Ok sh, s1) => k sh s1
+    | _ => r
+    end.
+
+  (** one turn of the `loop` of try_reduce_module: done with a result, or around again in a new state *)
+  Definition module_iter (l d : nat) (s : st) : iter :=
+    match toks s with
+    | [] => Stop (if Nat.eqb (nerr s) 0 then (Panic, s) else (Ok SOther, err1 s))
+    | t :: r =>
+      if is NL t then Again (adv s r)
+      else if is EOF t then Stop (Ok SOther, s)
+      else
+        match rec (CChunk true false) (S l) d s with
+        | (Ok _, s1) =>
+          let bad := negb (cur_is EOF (toks s1) || cur_is NL (toks s1)) in
+          Again (if bad then err1 (adv s1 (next_line (toks s1))) else s1)
+        | (Err, s1) => Again s1
+        | r => Stop r
+        end
+    end.
+
+  (** one turn of the `loop` of try_reduce_block ([ne]: the block has an expression already) *)
+  Definition block_iter (ne : bool) (l d : nat) (s : st) : bool * iter :=
+    let finish (s' : st) := Stop (if ne then (Ok SOther, s') else (Err, err1 s')) in
+    match toks s with
+    | [] => (ne, finish (err1 s))
+    | t :: r =>
+      if is NL t && cur_is DED r then (ne, finish (adv s (NL :: tl r)))
+      else if is DED t then (ne, finish (adv s r))
+      else if is NL t then (ne, Again (adv s r))
+      else if is EOF t then (ne, finish s)
+      else
+        match rec (CChunk true false) (S l) d s with
+        | (Ok _, s1) =>
+          let bad := negb (cur_is DED (toks s1) || cur_is NL (toks s1)) in
+          (true, Again (if bad then err1 (adv s1 (next_line (toks s1))) else s1))
+        | (Err, s1) => (ne, Again s1)
+        | r => (ne, Stop r)
+        end
+    end.
+
   Definition body (c : call) (l d : nat) (s : st) : out * st :=
     match c with
     (* ---- try_reduce_module *)
     | CModule =>
-      match toks s with
-      | [] => if Nat.eqb (nerr s) 0 then (Panic, s) else (Ok SOther, err1 s)
-      | NL :: r => rec CModule l d (adv s r)
-      | EOF :: _ => (Ok SOther, s)
-      | _ =>
-        match rec (CChunk true false) (S l) d s with
-        | (Ok _, s1) =>
-          let bad := match toks s1 with EOF :: _ | NL :: _ => false | _ => true end in
-          rec CModule l d (if bad then err1 (adv s1 (next_line (toks s1))) else s1)
-        | (Err, s1) => rec CModule l d s1
-        | r => r
-        end
+      match module_iter l d s with
+      | Stop r => r
+      | Again s2 => rec CModule l d s2
       end
     (* ---- try_reduce_block *)
     | CBlock =>
       let s := enter l d s in
-      match toks s with
-      | NL :: r =>
-        match skip_nl r with
-        | IND :: r2 => rec (CBlockLoop false) l d (adv s r2)
-        | r1 => (Err, err1 (adv s r1))
+      if cur_is NL (toks s) then
+        match skip_nl (toks s) with
+        | [] => (Err, err1 (adv s []))
+        | t :: r2 => if is IND t then rec (CBlockLoop false) l d (adv s r2) else (Err, err1 (adv s (t :: r2)))
         end
-      | _ =>
-        match rec (CExpr true false false) (S l) d s with
-        | (Ok _, s1) =>
-          let bad := match toks s1 with DED :: _ | NL :: _ | RP :: _ | RB :: _ | RS :: _ => false | _ => true end in
-          (Ok SOther, if bad then err1 (adv s1 (next_line (toks s1))) else s1)
-        | r => r
-        end
-      end
+      else
+        andthen (rec (CExpr true false false) (S l) d s) (fun _ s1 =>
+          let bad := negb (cur_is DED (toks s1) || cur_is NL (toks s1) || cur_renc (toks s1)) in
+          (Ok SOther, if bad then err1 (adv s1 (next_line (toks s1))) else s1))
     | CBlockLoop ne =>
-      let finish (s' : st) := if ne then (Ok SOther, s') else (Err, err1 s') in
-      match toks s with
-      | NL :: DED :: r => finish (adv s (NL :: r))
-      | DED :: r => finish (adv s r)
-      | NL :: r => rec (CBlockLoop ne) l d (adv s r)
-      | EOF :: _ => finish s
-      | [] => finish (err1 s)
-      | _ =>
-        match rec (CChunk true false) (S l) d s with
-        | (Ok _, s1) =>
-          let bad := match toks s1 with DED :: _ | NL :: _ => false | _ => true end in
-          rec (CBlockLoop true) l d (if bad then err1 (adv s1 (next_line (toks s1))) else s1)
-        | (Err, s1) => rec (CBlockLoop ne) l d s1
-        | r => r
-        end
+      match block_iter ne l d s with
+      | (_, Stop r) => r
+      | (ne', Again s2) => rec (CBlockLoop ne') l d s2
       end
-    (* ---- try_reduce_chunk *)
+    (* ---- try_reduce_chunk = nested + try_reduce_chunk_ *)
     | CChunk w b =>
       if Nat.leb LIMIT d then (Err, err1 (adv s (drain (toks s))))
       else
         let d := S d in
         let s := enter l d s in
-        match rec (CBinLhs b) (S l) d s with
-        | (Ok sh, s1) => rec (CChunkLoop w b sh) l d s1
-        | r => r
-        end
+        andthen (rec (CBinLhs b) (S l) d s) (fun sh s1 => rec (CChunkLoop w b sh) l d s1)
     | CChunkLoop w b lhs =>
       match toks s with
-      | SYM :: _ | NAT :: _ =>
-        match rec CArgs (S l) d s with
-        | (Ok _, s1) => rec (CChunkLoop w b SCall) l d s1
-        | r => r
-        end
-      | ARROW :: r => lambda_arm true lhs l d (adv s r) (fun s2 => rec (CChunkLoop w b SOther) l d s2)
-      | LS :: r | LSg :: r =>
-        match rec (CExpr false b false) (S l) d (adv s r) with
-        | (Ok _, s1) =>
-          match toks s1 with
-          | RS :: r1 => rec (CChunkLoop w b SAcc) l d (adv s1 r1)
-          | ts1 => (Err, err1 (adv s1 (next_line ts1)))
-          end
-        | r => r
-        end
-      | COMMA :: _ =>
-        if w then
-          match rec (CTuple false) (S l) d s with
-          | (Ok _, s1) => rec (CChunkLoop w b STuple) l d s1
-          | r => r
-          end
+      | [] => (Ok lhs, s)
+      | t :: r =>
+        if is SYM t || is NAT t then
+          andthen (rec CArgs (S l) d s) (fun _ s1 => rec (CChunkLoop w b SCall) l d s1)
+        else if is ARROW t then
+          lambda_arm true lhs l d (adv s r) (fun s2 => rec (CChunkLoop w b SOther) l d s2)
+        else if is_ls t then
+          andthen (rec (CExpr false b false) (S l) d (adv s r)) (fun _ s1 =>
+            match toks s1 with
+            | t1 :: r1 => if is RS t1 then rec (CChunkLoop w b SAcc) l d (adv s1 r1)
+                          else (Err, err1 (adv s1 (next_line (toks s1))))
+            | [] => (Err, err1 (adv s1 (next_line (toks s1))))
+            end)
+        else if is COMMA t && w then
+          andthen (rec (CTuple false) (S l) d s) (fun _ s1 => rec (CChunkLoop w b STuple) l d s1)
         else (Ok lhs, s)
-      | _ => (Ok lhs, s)
       end
     (* ---- try_reduce_expr -> nested -> try_reduce_expr_above *)
     | CExpr w b lb =>
@@ -230,194 +267,120 @@ Section Body.
       else
         let d := S d in
         let s := enter l d s in
-        match rec (CBinLhs b) (S l) d s with
-        | (Ok sh, s1) => rec (CExprLoop w b lb sh) l d s1
-        | r => r
-        end
+        andthen (rec (CBinLhs b) (S l) d s) (fun sh s1 => rec (CExprLoop w b lb sh) l d s1)
     | CExprLoop w b lb lhs =>
       match toks s with
-      | ARROW :: r => lambda_arm false lhs l d (adv s r) (fun s2 => rec (CExprLoop w b lb SOther) l d s2)
-      | LS :: r | LSg :: r =>
-        match rec (CExpr false b false) (S l) d (adv s r) with
-        | (Ok _, s1) =>
-          match toks s1 with
-          | [] => (Panic, s1)                                  (* `let r_sqbr = self.lpop();` *)
-          | RS :: r1 => rec (CExprLoop w b lb SAcc) l d (adv s1 r1)
-          | _ :: r1 => (Err, err1 (adv s1 (next_expr r1)))
-          end
-        | r => r
-        end
-      | COMMA :: _ =>
-        if w then
-          match rec (CTuple lb) (S l) d s with
-          | (Ok _, s1) => rec (CExprLoop w b lb STuple) l d s1
-          | r => r
-          end
+      | [] => (Ok lhs, s)
+      | t :: r =>
+        if is ARROW t then
+          lambda_arm false lhs l d (adv s r) (fun s2 => rec (CExprLoop w b lb SOther) l d s2)
+        else if is_ls t then
+          andthen (rec (CExpr false b false) (S l) d (adv s r)) (fun _ s1 =>
+            match toks s1 with
+            | [] => (Panic, s1)                                  (* `let r_sqbr = self.lpop();` *)
+            | t1 :: r1 => if is RS t1 then rec (CExprLoop w b lb SAcc) l d (adv s1 r1)
+                          else (Err, err1 (adv s1 (next_expr r1)))
+            end)
+        else if is COMMA t && w then
+          andthen (rec (CTuple lb) (S l) d s) (fun _ s1 => rec (CExprLoop w b lb STuple) l d s1)
         else (Ok lhs, s)
-      | _ => (Ok lhs, s)
       end
     | CBody ml => if ml then rec CBlock (S l) d s else rec (CExpr false false false) (S l) d s
     (* ---- try_reduce_bin_lhs *)
     | CBinLhs b =>
       let s := enter l d s in
       match toks s with
-      | NAT :: r =>
-        let s1 := enter (S l) d (adv s r) in                    (* try_reduce_lit *)
-        match r with
-        | SYM :: _ =>                                           (* 3x *)
-          match rec CCallOrAcc (S l) d s1 with
-          | (Ok _, s2) => (Ok SOther, s2)
-          | r => r
-          end
-        | LP :: r2 | LPg :: r2 =>                               (* 3(x) *)
-          match rec (CExpr false false false) (S l) d (adv s1 r2) with
-          | (Ok _, s2) =>
-            match toks s2 with
-            | RP :: r3 => (Ok SOther, adv s2 r3)
-            | _ => (Err, err1 s2)
-            end
-          | r => r
-          end
-        | _ => (Ok SLit, s1)
-        end
-      | SYM :: _ => rec CCallOrAcc (S l) d s
-      | PRE :: _ =>
-        match rec CUnary (S l) d s with
-        | (Ok _, s1) => (Ok SOther, s1)
-        | r => r
-        end
-      | LP :: r | LPg :: r =>
-        let r1 := skip_nl r in
-        let lb := match r1 with IND :: _ => true | _ => false end in
-        let r2 := match r1 with IND :: r' => r' | _ => r1 end in
-        match r2 with
-        | RP :: r3 => (Ok SUnit, adv s r3)
-        | _ =>
-          match rec (CExpr true false lb) (S l) d (adv s r2) with
-          | (Ok sh, s1) =>
-            let ts1 := if lb then skip_one_ded (skip_nl (toks s1)) else toks s1 in
-            match ts1 with
-            | RP :: r4 => (Ok sh, adv s1 r4)
-            | [] => (Err, err1 (adv s1 []))
-            | _ => (Err, err1 (adv s1 (next_expr ts1)))
-            end
-          | r => r
-          end
-        end
-      | LS :: _ | LSg :: _ =>
-        match rec CList (S l) d s with
-        | (Ok _, s1) => (Ok SList, s1)
-        | r => r
-        end
-      | LB :: _ =>
-        match rec CBrace (S l) d s with
-        | (Ok _, s1) => (Ok SOther, s1)
-        | r => r
-        end
       | [] => (Err, err1 s)
-      | _ => (Err, err1 (adv s (next_expr (toks s))))
+      | t :: r =>
+        if is NAT t then
+          let s1 := enter (S l) d (adv s r) in                    (* try_reduce_lit *)
+          match r with
+          | [] => (Ok SLit, s1)
+          | t2 :: r2 =>
+            if is SYM t2 then                                     (* 3x *)
+              andthen (rec CCallOrAcc (S l) d s1) (fun _ s2 => (Ok SOther, s2))
+            else if is_lp t2 then                                 (* 3(x) *)
+              andthen (rec (CExpr false false false) (S l) d (adv s1 r2)) (fun _ s2 =>
+                match toks s2 with
+                | t3 :: r3 => if is RP t3 then (Ok SOther, adv s2 r3) else (Err, err1 s2)
+                | [] => (Err, err1 s2)
+                end)
+            else (Ok SLit, s1)
+          end
+        else if is SYM t then rec CCallOrAcc (S l) d s
+        else if is PRE t then andthen (rec CUnary (S l) d s) (fun _ s1 => (Ok SOther, s1))
+        else if is_lp t then
+          let (lb, r2) := open_paren r in
+          if cur_is RP r2 then (Ok SUnit, adv s (tl r2))
+          else
+            andthen (rec (CExpr true false lb) (S l) d (adv s r2)) (fun sh s1 =>
+              let ts1 := close_paren lb (toks s1) in
+              match ts1 with
+              | [] => (Err, err1 (adv s1 []))
+              | t4 :: r4 => if is RP t4 then (Ok sh, adv s1 r4) else (Err, err1 (adv s1 (next_expr ts1)))
+              end)
+        else if is_ls t then andthen (rec CList (S l) d s) (fun _ s1 => (Ok SList, s1))
+        else if is LB t then andthen (rec CBrace (S l) d s) (fun _ s1 => (Ok SOther, s1))
+        else (Err, err1 (adv s (next_expr (toks s))))
       end
     (* ---- try_reduce_call_or_acc (with try_reduce_acc_lhs inlined: one more frame) *)
     | CCallOrAcc =>
       let s := enter l d s in
       let s := enter (S l) d s in
-      match toks s with
-      | SYM :: r =>
-        match rec CAccChain (S l) d (adv s r) with
-        | (Ok obj, s1) => rec (CCallLoop obj) l d s1
-        | r => r
-        end
-      | _ => (Err, err1 (adv s (next_expr (toks s))))
-      end
+      if cur_is SYM (toks s) then
+        andthen (rec CAccChain (S l) d (adv s (tl (toks s)))) (fun obj s1 => rec (CCallLoop obj) l d s1)
+      else (Err, err1 (adv s (next_expr (toks s))))
     | CCallLoop obj =>
       let s := enter (S l) d s in                               (* opt_reduce_args *)
-      match toks s with
-      | t :: _ =>
-        if arg_start t then
-          match rec CArgs (S (S l)) d s with
-          | (Ok _, s1) => rec (CCallLoop SCall) l d s1
-          | r => r
-          end
-        else (Ok obj, s)
-      | [] => (Ok obj, s)
-      end
+      if cur_arg_start (toks s) then
+        andthen (rec CArgs (S (S l)) d s) (fun _ s1 => rec (CCallLoop SCall) l d s1)
+      else (Ok obj, s)
     (* ---- try_reduce_acc_chain *)
     | CAccChain => rec (CAccLoop SIdent) l d (enter l d s)
     | CAccLoop obj =>
-      match toks s with
-      | LSg :: r =>
-        match rec (CExpr true false false) (S l) d (adv s r) with
-        | (Ok _, s1) =>
-          match toks s1 with
-          | RS :: r1 => rec (CAccLoop SAcc) l d (adv s1 r1)
-          | ts1 => (Err, err1 (adv s1 (next_line ts1)))
-          end
-        | r => r
-        end
-      | LPg :: _ =>
-        match rec CArgs (S l) d s with
-        | (Ok _, s1) => rec (CAccLoop SCall) l d s1
-        | r => r
-        end
-      | _ => (Ok obj, s)
-      end
+      if cur_is LSg (toks s) then
+        andthen (rec (CExpr true false false) (S l) d (adv s (tl (toks s)))) (fun _ s1 =>
+          if cur_is RS (toks s1) then rec (CAccLoop SAcc) l d (adv s1 (tl (toks s1)))
+          else (Err, err1 (adv s1 (next_line (toks s1)))))
+      else if cur_is LPg (toks s) then
+        andthen (rec CArgs (S l) d s) (fun _ s1 => rec (CAccLoop SCall) l d s1)
+      else (Ok obj, s)
     (* ---- try_reduce_args *)
     | CArgs =>
       let s := enter l d s in
-      let lp := match toks s with LP :: _ | LPg :: _ => true | _ => false end in
-      let ts1 := match toks s with LP :: r | LPg :: r => r | ts => ts end in
+      let lp := cur_lp (toks s) in
+      let ts1 := if lp then tl (toks s) else toks s in
       let first (multi : bool) (s' : st) :=
-        match rec CArg (S l) d s' with
-        | (Ok _, s2) => rec (CArgsLoop lp multi) l d s2
-        | r => r
-        end in
-      match ts1 with
-      | RP :: r => if lp then (Ok SOther, adv s r) else (Ok SOther, adv s ts1)
-      | RB :: _ | RS :: _ | DED :: _ => (Ok SOther, adv s ts1)
-      | NL :: r =>
-        if lp then first true (adv s (match r with IND :: r2 => r2 | _ => r end))
-        else first false (adv s ts1)
-      | _ => first false (adv s ts1)
-      end
+        andthen (rec CArg (S l) d s') (fun _ s2 => rec (CArgsLoop lp multi) l d s2) in
+      if cur_is RP ts1 then (if lp then (Ok SOther, adv s (tl ts1)) else (Ok SOther, adv s ts1))
+      else if cur_is RB ts1 || cur_is RS ts1 || cur_is DED ts1 then (Ok SOther, adv s ts1)
+      else if cur_is NL ts1 && lp then first true (adv s (if cur_is IND (tl ts1) then tl (tl ts1) else tl ts1))
+      else first false (adv s ts1)
     | CArgsLoop lp multi =>
       match toks s with
-      | COMMA :: r =>
-        match r with
-        | COMMA :: _ => (Err, err1 (adv s (until_dedent 1 r)))
-        | _ =>
-          let r1 := if multi then skip_one_ded (skip_nl r) else r in
-          match r1 with
-          | RP :: r2 =>
-            if lp then (Ok SOther, adv s r2)
-            else match rec CArg (S l) d (adv s r1) with
-                 | (Ok _, s2) => rec (CArgsLoop lp multi) l d s2
-                 | r => r
-                 end
-          | _ =>
-            match rec CArg (S l) d (adv s r1) with
-            | (Ok _, s2) => rec (CArgsLoop lp multi) l d s2
-            | r => r
-            end
-          end
-        end
-      | RP :: r => if lp then (Ok SOther, adv s r) else (Ok SOther, s)
-      | NL :: r =>
-        if lp && negb multi then (Err, err1 (adv s r))         (* next_expr consumes this newline *)
-        else if multi then
-          match skip_ded r with
-          | RP :: r2 => (Ok SOther, adv s r2)
-          | r1 => (Err, err1 (adv s (next_line r1)))
-          end
-        else (Ok SOther, s)
       | [] => (Err, err1 s)
-      | _ => (Ok SOther, s)
+      | t :: r =>
+        if is COMMA t then
+          if cur_is COMMA r then (Err, err1 (adv s (until_dedent 1 r)))
+          else
+            let r1 := if multi then skip_one_ded (skip_nl r) else r in
+            if cur_is RP r1 && lp then (Ok SOther, adv s (tl r1))
+            else andthen (rec CArg (S l) d (adv s r1)) (fun _ s2 => rec (CArgsLoop lp multi) l d s2)
+        else if is RP t then (if lp then (Ok SOther, adv s r) else (Ok SOther, s))
+        else if is NL t then
+          if lp && negb multi then (Err, err1 (adv s r))         (* next_expr consumes this newline *)
+          else if multi then
+            let r1 := skip_ded r in
+            if cur_is RP r1 then (Ok SOther, adv s (tl r1)) else (Err, err1 (adv s (next_line r1)))
+          else (Ok SOther, s)
+        else (Ok SOther, s)
       end
     (* ---- try_reduce_arg *)
     | CArg =>
       let s := enter l d s in
       match toks s with
       | [] => (Err, err1 s)
-      | _ => rec (CExpr false false false) (S l) d s
+      | _ :: _ => rec (CExpr false false false) (S l) d s
       end
     (* ---- try_reduce_unary *)
     | CUnary =>
@@ -429,119 +392,82 @@ Section Body.
     (* ---- try_reduce_list *)
     | CList =>
       let s := enter l d s in
-      match toks s with
-      | LS :: r | LSg :: r =>
-        match rec CListElems (S l) d (adv s r) with
-        | (Ok _, s1) =>
-          match toks s1 with
-          | RS :: r1 => (Ok SList, adv s1 r1)
-          | ts1 => (Err, err1 (adv s1 (next_line ts1)))
-          end
-        | r => r
-        end
-      | ts => (Err, err1 (adv s (next_line ts)))
-      end
+      if cur_ls (toks s) then
+        andthen (rec CListElems (S l) d (adv s (tl (toks s)))) (fun _ s1 =>
+          if cur_is RS (toks s1) then (Ok SList, adv s1 (tl (toks s1)))
+          else (Err, err1 (adv s1 (next_line (toks s1)))))
+      else (Err, err1 (adv s (next_line (toks s))))
     (* ---- try_reduce_list_elems *)
     | CListElems =>
       let s := enter l d s in
-      match toks s with
-      | EOF :: _ => (Err, err1 s)
-      | RP :: _ | RS :: _ | RB :: _ | DED :: _ => (Ok SOther, s)
-      | _ =>
-        match rec CElem (S l) d s with
-        | (Ok _, s1) =>
+      if cur_is EOF (toks s) then (Err, err1 s)
+      else if cur_renc (toks s) then (Ok SOther, s)
+      else
+        andthen (rec CElem (S l) d s) (fun _ s1 =>
           match toks s1 with
-          | RP :: _ | RS :: _ | RB :: _ | DED :: _ | COMMA :: _ => rec CListLoop l d s1
           | [] => (Err, err1 s1)
-          | _ =>
-            match rec CElem (S l) d s1 with
-            | (Ok _, s2) => rec CListLoop l d s2
-            | r => r
-            end
-          end
-        | r => r
-        end
-      end
+          | t1 :: _ =>
+            if renc t1 || is COMMA t1 then rec CListLoop l d s1
+            else andthen (rec CElem (S l) d s1) (fun _ s2 => rec CListLoop l d s2)
+          end)
     | CListLoop =>
       match toks s with
-      | COMMA :: r =>
-        match r with
-        | COMMA :: _ => (Err, err1 (adv s (next_expr r)))
-        | RP :: _ | RS :: _ | RB :: _ | DED :: _ => (Ok SOther, adv s r)
-        | _ =>
-          match rec CElem (S l) d (adv s r) with
-          | (Ok _, s1) => rec CListLoop l d s1
-          | r => r
-          end
-        end
-      | RP :: _ | RS :: _ | RB :: _ | DED :: _ => (Ok SOther, s)
       | [] => (Err, err1 s)
-      | _ => (Err, err1 (adv s (next_expr (toks s))))
+      | t :: r =>
+        if is COMMA t then
+          if cur_is COMMA r then (Err, err1 (adv s (next_expr r)))
+          else if cur_renc r then (Ok SOther, adv s r)
+          else andthen (rec CElem (S l) d (adv s r)) (fun _ s1 => rec CListLoop l d s1)
+        else if renc t then (Ok SOther, s)
+        else (Err, err1 (adv s (next_expr (toks s))))
       end
     (* ---- try_reduce_elem *)
     | CElem =>
       let s := enter l d s in
       match toks s with
       | [] => (Err, err1 s)
-      | _ => rec (CExpr false false false) (S l) d s
+      | _ :: _ => rec (CExpr false false false) (S l) d s
       end
     (* ---- try_reduce_brace_container *)
     | CBrace =>
       let s := enter l d s in
-      match toks s with
-      | LB :: r =>
-        match r with
-        | EOF :: _ => (Err, err1 (adv s r))
-        | RB :: r1 => (Ok SOther, adv s r1)
-        | _ =>
-          match rec (CChunk false true) (S l) d (adv s r) with
-          | (Ok _, s1) =>
-            match toks s1 with
-            | RB :: r2 => (Ok SOther, adv s1 r2)
-            | _ => rec CSet (S l) d s1
-            end
-          | r => r
-          end
-        end
-      | ts => (Err, err1 (adv s (next_line ts)))
-      end
+      if cur_is LB (toks s) then
+        let r := tl (toks s) in
+        if cur_is EOF r then (Err, err1 (adv s r))
+        else if cur_is RB r then (Ok SOther, adv s (tl r))
+        else
+          andthen (rec (CChunk false true) (S l) d (adv s r)) (fun _ s1 =>
+            if cur_is RB (toks s1) then (Ok SOther, adv s1 (tl (toks s1)))
+            else rec CSet (S l) d s1)
+      else (Err, err1 (adv s (next_line (toks s))))
     (* ---- try_reduce_set *)
     | CSet => rec CSetLoop l d (enter l d s)
     | CSetLoop =>
       match toks s with
-      | COMMA :: r =>
-        match r with
-        | COMMA :: _ => (Err, err1 (adv s (next_expr r)))
-        | RB :: r1 => (Ok SOther, adv s r1)
-        | _ =>
-          let r1 := match r with NL :: r' | IND :: r' | DED :: r' => r' | _ => r end in
-          match rec CArg (S l) d (adv s r1) with
-          | (Ok _, s1) => rec CSetLoop l d s1
-          | r => r
-          end
-        end
-      | NL :: r | IND :: r | DED :: r => rec CSetLoop l d (adv s r)
-      | RB :: r => (Ok SOther, adv s r)
       | [] => (Err, err1 s)
-      | _ => (Err, err1 (adv s (next_expr (toks s))))
+      | t :: r =>
+        if is COMMA t then
+          if cur_is COMMA r then (Err, err1 (adv s (next_expr r)))
+          else if cur_is RB r then (Ok SOther, adv s (tl r))
+          else
+            let r1 := if cur_is NL r || cur_is IND r || cur_is DED r then tl r else r in
+            andthen (rec CArg (S l) d (adv s r1)) (fun _ s1 => rec CSetLoop l d s1)
+        else if is NL t || is IND t || is DED t then rec CSetLoop l d (adv s r)
+        else if is RB t then (Ok SOther, adv s r)
+        else (Err, err1 (adv s (next_expr (toks s))))
       end
     (* ---- try_reduce_nonempty_tuple *)
     | CTuple lb => rec (CTupleLoop lb) l d (enter l d s)
     | CTupleLoop lb =>
       match toks s with
-      | COMMA :: r =>
-        let r1 := if lb then skip_nl r else r in
-        match r1 with
-        | COMMA :: _ => (Err, err1 (adv s (next_expr r1)))
-        | DED :: _ | RP :: _ => (Ok STuple, adv s r1)
-        | _ =>
-          match rec CArg (S l) d (adv s r1) with
-          | (Ok _, s1) => rec (CTupleLoop lb) l d s1
-          | r => r
-          end
-        end
       | [] => (Err, err1 s)
-      | _ => (Ok STuple, s)
+      | t :: r =>
+        if is COMMA t then
+          let r1 := if lb then skip_nl r else r in
+          if cur_is COMMA r1 then (Err, err1 (adv s (next_expr r1)))
+          else if cur_is DED r1 || cur_is RP r1 then (Ok STuple, adv s r1)
+          else andthen (rec CArg (S l) d (adv s r1)) (fun _ s1 => rec (CTupleLoop lb) l d s1)
+        else (Ok STuple, s)
       end
     end.
 End Body.
@@ -557,7 +483,7 @@ Definition parse_fuel (fuel : nat) (ts : list tok) : out * st :=
   exec fuel CModule 1 0 (enter 1 0 (mkst ts 0 0 0)).
 
 (** enough fuel for every token list (ParseDepth/Proofs.v fuel_sufficient) *)
-Definition RANK : nat := 24.
+Definition RANK : nat := 6.
 Definition potential (n d : nat) : nat := (2 * RANK) * n + RANK * (LIMIT - d) + RANK.
 Definition bound (ts : list tok) : nat := S (potential (length ts) 0).
 Definition parse (ts : list tok) : out * st := parse_fuel (bound ts) ts.
